@@ -12,7 +12,7 @@ import os, shutil, subprocess, sys
 sys.path.insert(0, os.path.join(os.path.dirname(os.path.dirname(os.path.abspath(__file__))), "harness", "py"))
 import numpy as np
 from tools import vlib
-import femmio, gen, fem_oracle
+import femmio, gen, fem_oracle, cuthill_tie
 from runner import Run
 
 PROTO = ("consts", "problem", "np", "lp", "bp", "cp", "lab", "n", "e", "pbc", "run")
@@ -172,6 +172,7 @@ def main(argv):
                             ck.violation("true-residual", "PCGSolve returned with true relative residual %.3g" % v, dict(files=run.files(), log=l))
             # ---- stage P: independent oracle on the .res
             sol = femmio.read_solution(run.solution_path(), "e")
+            cuthill_tie.tie(ck, stats, mx, run, sol, "esolver")
             stats["nodes"] += len(sol["nodes"])
             from scipy.spatial import cKDTree
             A = np.array([[n[0], n[1]] for n in mesh_nodes]); Bn = np.array([[n[0], n[1]] for n in sol["nodes"]])
